@@ -427,71 +427,68 @@ fn witness(subset: &[usize], lib: bool, c: Cfg, order: &Option<Vec<usize>>, name
     w
 }
 
-/// shrink a failing case: fewer files, no library, default config knobs, identity arrival order
-fn minimise(rt: &tokio::runtime::Runtime, dir: &Path, subset: &[usize], lib: bool, c: Cfg, order: Option<Vec<usize>>, sig: &str, bin: &Path) -> (Value, String) {
+type MinCache = Mutex<std::collections::HashMap<String, (Value, String)>>;
+
+/// One witness per signature: the first failing case in a fixed order — configuration (default first,
+/// then the failing one with knobs reset one at a time), number of files upward, subsets in bank order,
+/// without then with the library, arrival orders lexicographically. The result is cached per signature, so
+/// every raw case with that signature is counted under the same minimal witness.
+fn minimise(rt: &tokio::runtime::Runtime, dir: &Path, subset: &[usize], lib: bool, c: Cfg, sig: &str, bin: &Path, cache: &MinCache) -> (Value, String) {
+    if let Some(hit) = cache.lock().unwrap().get(sig) {
+        return hit.clone();
+    }
     let is_bin = sig.starts_with("binary:");
-    let try_case = |subset: &[usize], lib: bool, c: Cfg, order_names: Option<&Vec<String>>| -> Option<(String, Value)> {
+    let try_case = |subset: &[usize], lib: bool, c: Cfg| -> Option<(Value, String)> {
         let main = make_workspace(&dir.join("min"), subset, lib);
         let l = load(rt, &main);
         let names: Vec<String> = l.files.iter().map(|f| f.name.clone()).collect();
-        let orders: Vec<Vec<usize>> = if is_bin {
-            vec![]
+        // the real binary's arrival order is up to the OS: give a failing case three chances to show
+        let f = if is_bin {
+            (0..3).flat_map(|_| binary_failures(&l.files, &l.main, c, bin, &dir.join("min"))).collect::<Vec<_>>()
         } else {
-            match order_names {
-                Some(on) => {
-                    let o: Vec<usize> = on.iter().filter_map(|n| names.iter().position(|x| x == n)).collect();
-                    if o.len() != names.len() {
-                        return None;
-                    }
-                    vec![o]
-                }
-                None => permutations(names.len()),
-            }
+            inproc_failures(rt, &l, c, &permutations(names.len()), &dir.join("min"))
         };
-        let f = if is_bin { binary_failures(&l.files, &l.main, c, bin, &dir.join("min")) } else { inproc_failures(rt, &l, c, &orders, &dir.join("min")) };
-        f.into_iter().find(|(s, _, _)| s == sig).map(|(_, d, o)| (d, witness(subset, lib, c, &o, &names)))
+        f.into_iter().find(|(s, _, _)| s == sig).map(|(_, d, o)| (witness(subset, lib, c, &o, &names), d))
     };
-    let mut cur_subset = subset.to_vec();
-    let mut cur_lib = lib;
-    let mut cur_c = c;
-    let _ = order;
-    let mut best = try_case(&cur_subset, cur_lib, cur_c, None);
-    if best.is_none() {
-        return (witness(subset, lib, c, &None, &[]), "did not reproduce during minimisation".into());
-    }
-    if cur_lib {
-        if let Some(b) = try_case(&cur_subset, false, cur_c, None) {
-            cur_lib = false;
-            best = Some(b);
+    let mut cfgs = vec![cfg(0)];
+    for knobs in [[true, true, false], [true, false, true], [false, true, true], [true, false, false], [false, true, false], [false, false, true], [false, false, false]] {
+        let mut k = c;
+        if knobs[0] {
+            k.filter = 0;
+        }
+        if knobs[1] {
+            k.wae = false;
+        }
+        if knobs[2] {
+            k.out = 0;
+        }
+        if !cfgs.contains(&k) {
+            cfgs.push(k);
         }
     }
-    let mut i = 0;
-    while i < cur_subset.len() {
-        let mut cand = cur_subset.clone();
-        cand.remove(i);
-        if let Some(b) = try_case(&cand, cur_lib, cur_c, None) {
-            cur_subset = cand;
-            best = Some(b);
-        } else {
-            i += 1;
-        }
-    }
-    for knob in 0..3 {
-        let mut cand = cur_c;
-        match knob {
-            0 => cand.filter = 0,
-            1 => cand.wae = false,
-            _ => cand.out = 0,
-        }
-        if cand != cur_c {
-            if let Some(b) = try_case(&cur_subset, cur_lib, cand, None) {
-                cur_c = cand;
-                best = Some(b);
+    let mut found = None;
+    'search: for k in &cfgs {
+        for n in 0..=subset.len() {
+            for mask in 0u32..(1 << BANK.len()) {
+                if mask.count_ones() as usize != n {
+                    continue;
+                }
+                let cand: Vec<usize> = (0..BANK.len()).filter(|b| mask & (1 << b) != 0).collect();
+                for l in [false, true] {
+                    if l && !lib {
+                        continue;
+                    }
+                    if let Some(hit) = try_case(&cand, l, *k) {
+                        found = Some(hit);
+                        break 'search;
+                    }
+                }
             }
         }
     }
-    let (d, w) = best.unwrap();
-    (w, d)
+    let res = found.unwrap_or_else(|| (witness(subset, lib, c, &None, &[]), "seen once, did not reproduce during minimisation (the real binary's arrival order is not controlled)".into()));
+    cache.lock().unwrap().insert(sig.to_string(), res.clone());
+    res
 }
 
 pub fn replay(args: &Args, w: &Value, sig: Option<&str>) -> Option<Violation> {
@@ -552,6 +549,7 @@ pub fn run(args: &Args) -> ! {
         }
     }
 
+    let min_cache: MinCache = Mutex::new(std::collections::HashMap::new());
     let mut all = Stats::default();
     let mut states = 0u64;
     let mut transitions = 0u64;
@@ -604,7 +602,8 @@ pub fn run(args: &Args) -> ! {
                     all.sample(|| json!({"workspace": ws_json(subset, *lib), "config": c.json(), "arrival_order": o.iter().map(|&i| names[i].clone()).collect::<Vec<_>>(), "expected_exit_nonzero": want, "expected_report_entries": n_items, "verdict": if fails.is_empty() { "agrees" } else { "differs" }}));
                 }
                 for (sig, _d, ord) in fails {
-                    let (w, d) = minimise(&rt, &base, subset, *lib, c, ord, &sig, &bin);
+                    let _ = ord;
+                    let (w, d) = minimise(&rt, &base, subset, *lib, c, &sig, &bin, &min_cache);
                     all.violation(Violation { signature: sig, witness: w, detail: d });
                 }
             }
@@ -637,7 +636,7 @@ pub fn run(args: &Args) -> ! {
             RT.with(|rt| {
                 for (sig, _d, _) in fails {
                     let mdir = base.join(format!("t{}", thread_slot()));
-                    let (w, d) = minimise(rt, &mdir, &kw.subset, kw.lib, c, None, &sig, &bin);
+                    let (w, d) = minimise(rt, &mdir, &kw.subset, kw.lib, c, &sig, &bin, &min_cache);
                     st.violation(Violation { signature: sig, witness: w, detail: d });
                 }
             });
